@@ -273,7 +273,7 @@ def check_world(w, root, inline, missing_mode):
 
 def plan(tier):
     k = 10 if tier == 'quick' else 16
-    return [{'kind': 'worlds', 'n': 700 if tier == 'quick' else 15000, 'k': i} for i in range(k)]
+    return [{'kind': 'worlds', 'n': 2000 if tier == 'quick' else 15000, 'k': i} for i in range(k)]
 
 
 def run_shard(ctx, spec):
